@@ -20,12 +20,14 @@ func main() {
 	}
 	r.Register("hist", dh.RunHist)
 	r.Register("src", dh.RunSrc)
+	r.Register("ao", dh.RunAppendOptions)
 	r.Register("histf", dh.RunHistFresh)
 	r.Register("restart", dh.RunRestart)
 	if r.Replayed() {
 		return
 	}
 	dh.Source(r)
+	dh.AppendOptionsCases(r, 1500)
 	dh.Corpus(r)
 	dh.Generate(r, 2, []int{1, 2, 3}, dh.NCfg)
 	if r.Thorough() {
